@@ -16,7 +16,7 @@ from .. import workloads as W
 
 ID = "C11"
 RULE = ("case = (copula in {Clayton(theta, eta) incl. eta in {0,1}, independent, dependent}, dimension 2|3, seed): 40 argument "
-        "vectors of every sign pattern with magnitudes 1e-8..1e8 and 0 / +-inf entries, 40 rectangles of (-inf,inf]^d (incl. "
+        "vectors of every sign pattern with magnitudes 1e-14..1e14 and 0 / +-inf entries, 40 rectangles of (-inf,inf]^d (incl. "
         "straddling 0 and infinite sides), margins on 30 points, Clayton conditional distribution on a 400-point mesh + 60 "
         "round trips, mixed derivative on 30 points; non-trivial = copula with at least one rectangle of positive volume; "
         "distinct = distinct (kind, parameters, dimension)")
@@ -44,7 +44,10 @@ def gen_cases(tier, seed):
 
 
 def _mag(rng):
-    return float(10 ** rng.uniform(-8, 8)) if rng.random() < 0.3 else float(10 ** rng.uniform(-2, 2))
+    r = rng.random()
+    if r < 0.12:     # far tails of a Levy measure give tiny tail integrals, the neighbourhood of 0 huge ones
+        return float(10 ** rng.uniform(-14, 14))
+    return float(10 ** rng.uniform(-8, 8)) if r < 0.3 else float(10 ** rng.uniform(-2, 2))
 
 
 def _vec(rng, d, special=True):
